@@ -421,6 +421,9 @@ func DeserializeNode(data []byte) (Node, error) {
 				childNodeValue := &hashNode{hash: childHash, weight: childWeight}
 				if len(child) == hashWithWeightLength {
 					branchNode.Children[i] = childNodeValue
+				} else if len(child) < hashWithWeightLength+32 {
+					// too short to hold the embedded short node's value hash
+					return nil, errors.New("invalid branch child")
 				} else {
 					childNodeValue.hash = child[hashWithWeightLength : hashWithWeightLength+32]
 					childKey := child[hashWithWeightLength+32:]
